@@ -20,10 +20,12 @@ import (
 	"github.com/google/gopacket/layers"
 	"github.com/omec-project/upf-epc/internal/p4constants"
 	pb "github.com/omec-project/upf-epc/pfcpiface/bess_pb"
+	p4ConfigV1 "github.com/p4lang/p4runtime/go/p4/config/v1"
 	p4 "github.com/p4lang/p4runtime/go/p4/v1"
 	"github.com/wmnsk/go-pfcp/ie"
 	"github.com/wmnsk/go-pfcp/message"
 	"go.uber.org/zap"
+	"google.golang.org/grpc/connectivity"
 )
 
 var _ = zap.InfoLevel
@@ -35,8 +37,10 @@ var _ message.Message
 var _ = p4constants.MeterPreQosPipeSliceTcMeter
 
 var _ p4.Update_Type
+var _ *p4ConfigV1.Table
 
 var _ time.Duration
+var _ connectivity.State
 var _ pb.BESSControlClient
 
 var _ http.Handler
@@ -475,12 +479,14 @@ func specAllPdrsRef(s *PFCPSession, v uint32) bool {
 //@   ensures C03.mark.pdrframe: forall r int :: r != sliceRef(s.pdrs) ==> arrSame[pdr](r)
 //@   ensures C03.mark.session: same(*s, old[PFCPSession](*s))
 //@   requires s != nil
+//@   ensures C03.mark.inplace: forall j int :: lo(s.pdrs) <= j && j < hi(s.pdrs) ==> sliceRef(at(s.pdrs, j).qerIDList) == old[int](sliceRef(at(s.pdrs, j).qerIDList)) && lo(at(s.pdrs, j).qerIDList) == old[int](lo(at(s.pdrs, j).qerIDList)) && len(at(s.pdrs, j).qerIDList) == old[int](len(at(s.pdrs, j).qerIDList))
 //@   ensures C09.mark.sound: forall k int :: lo(qers) <= k && k < hi(qers) && at(qers, k).qosLevel == SessionQos && old[QosLevel](at(qers, k).qosLevel) != SessionQos ==> old[bool](specAllPdrsRef(s, at(qers, k).qerID))
 //@   ensures C09.mark.atMostOne: forall k1 int, k2 int :: lo(qers) <= k1 && k1 < k2 && k2 < hi(qers) ==> at(qers, k1).qosLevel == old[QosLevel](at(qers, k1).qosLevel) || at(qers, k2).qosLevel == old[QosLevel](at(qers, k2).qosLevel)
 //@   ensures C09.mark.keeps: forall k int :: lo(qers) <= k && k < hi(qers) ==> at(qers, k).qerID == old[uint32](at(qers, k).qerID) && (old[QosLevel](at(qers, k).qosLevel) == SessionQos ==> at(qers, k).qosLevel == SessionQos) && at(qers, k).ulMbr == old[uint64](at(qers, k).ulMbr) && at(qers, k).dlMbr == old[uint64](at(qers, k).dlMbr) && at(qers, k).ulGbr == old[uint64](at(qers, k).ulGbr) && at(qers, k).dlGbr == old[uint64](at(qers, k).dlGbr) && at(qers, k).qfi == old[uint8](at(qers, k).qfi) && at(qers, k).ulStatus == old[uint8](at(qers, k).ulStatus) && at(qers, k).dlStatus == old[uint8](at(qers, k).dlStatus) && at(qers, k).fseID == old[uint64](at(qers, k).fseID)
 //@   loop 1 freshwrites E:uint32
 //@   loop 1 invariant C09.mark.l1.idx: rangeidx+1 <= len(s.pdrs) && !allocated(sessQerIDList)
 //@   loop 1 invariant C09.mark.l1.common: forall x int, j int :: lo(sessQerIDList) <= x && x < hi(sessQerIDList) && lo(s.pdrs) <= j && j < lo(s.pdrs)+rangeidx+1 ==> specContains(at(s.pdrs, j).qerIDList, at(sessQerIDList, x))
+//@   loop 3 invariant C03.mark.l3.inplace: forall j int :: lo(s.pdrs) <= j && j < hi(s.pdrs) ==> sliceRef(at(s.pdrs, j).qerIDList) == old[int](sliceRef(at(s.pdrs, j).qerIDList)) && lo(at(s.pdrs, j).qerIDList) == old[int](lo(at(s.pdrs, j).qerIDList)) && len(at(s.pdrs, j).qerIDList) == old[int](len(at(s.pdrs, j).qerIDList))
 //@   loop 3 invariant C03.mark.l3.frame: same(s.pdrs, old[[]pdr](s.pdrs)) && (forall r int :: r != sliceRef(s.pdrs) ==> arrSame[pdr](r))
 //@   loop 2 invariant C09.mark.l2.idx: rangeidx+1 <= len(qers) && 0 <= sessionIdx
 //@   loop 2 invariant C09.mark.l2.pick: found ==> sessionIdx < len(qers) && specContains(sessQerIDList, at(qers, lo(qers)+sessionIdx).qerID) && sessQerID == at(qers, lo(qers)+sessionIdx).qerID
@@ -882,6 +888,29 @@ func specHBResp(m message.Message) *message.HeartbeatResponse {
 //@   appends isconn
 //@   ensures (gfield("isconn.r", gentry("isconn", glen("isconn")-1)) == 1) <==> r
 
+// specSawState: the call looked at the state of gRPC channel conn exactly once and saw state st.
+func specSawState(before int, conn int, st connectivity.State) bool {
+	return glen("grpcstate") == before+1 && gfield("grpcstate.conn", gentry("grpcstate", before)) == uint64(conn) &&
+		gfield("grpcstate.s", gentry("grpcstate", before)) == uint64(st)
+}
+
+// C12: "connected" means the datapath channel is READY at the moment of the check - not idle, not
+// connecting, not failed (an association is accepted exactly then).
+//@ func (b *bess) IsConnected(accessIP *net.IP) (r bool)
+//@   requires b != nil
+//@   ensures C12.bess.connected: r <==> (b.conn != nil && specSawState(old[int](glen("grpcstate")), refOf(b.conn), connectivity.Ready))
+//@   ensures C12.bess.noconn: b.conn == nil ==> glen("grpcstate") == old[int](glen("grpcstate"))
+//@   ensures C12.bess.once: glen("grpcstate") <= old[int](glen("grpcstate"))+1
+
+//@ func (c *P4rtClient) CheckStatus() (s connectivity.State)
+//@   requires c != nil && c.conn != nil
+//@   ensures C12.p4rtc.status: specSawState(old[int](glen("grpcstate")), refOf(c.conn), s)
+
+//@ func (up4 *UP4) IsConnected(accessIP *net.IP) (r bool)
+//@   requires up4 != nil && !held(&up4.connectedMu) && (up4.p4client != nil ==> up4.p4client.conn != nil)
+//@   ensures C12.up4.connected: r <==> (up4.connected && up4.p4client != nil && specSawState(old[int](glen("grpcstate")), refOf(up4.p4client.conn), connectivity.Ready))
+//@   ensures C12.up4.lock: !held(&up4.connectedMu)
+
 func specASReq(m message.Message) *message.AssociationSetupRequest {
 	return ptrAt[message.AssociationSetupRequest](dynRef(m))
 }
@@ -1120,53 +1149,197 @@ func specP4Encodable(v any) bool {
 		(typeIs[int](v) && 0 <= v.(int) && v.(int) <= 4294967295)
 }
 
+// specP4Bytes: the width convertValueToBinary gives the dynamic type of v.
+func specP4Bytes(v any) int {
+	if typeIs[uint16](v) {
+		return 2
+	}
+	if typeIs[uint32](v) || typeIs[int](v) {
+		return 4
+	}
+	if typeIs[uint64](v) {
+		return 8
+	}
+
+	return 1
+}
+
+// specBE: the number a big-endian byte string of 1, 2, 4 or 8 bytes denotes.
+func specBE(b []byte) uint64 {
+	if len(b) == 1 {
+		return uint64(b[0])
+	}
+	if len(b) == 2 {
+		return uint64(b[0])<<8 | uint64(b[1])
+	}
+	if len(b) == 4 {
+		return uint64(b[0])<<24 | uint64(b[1])<<16 | uint64(b[2])<<8 | uint64(b[3])
+	}
+	if len(b) == 8 {
+		return uint64(b[0])<<56 | uint64(b[1])<<48 | uint64(b[2])<<40 | uint64(b[3])<<32 | uint64(b[4])<<24 | uint64(b[5])<<16 | uint64(b[6])<<8 | uint64(b[7])
+	}
+
+	return 0
+}
+
+// convertValueToBinary (verified): an encodable value becomes a fresh big-endian byte string of the
+// width of its dynamic type that denotes specP4Val(value).
+//@ func convertValueToBinary(value interface{}) (b []byte, err error)
+//@   freshwrites E:uint8
+//@   ensures C16.conv.accept: specP4Encodable(value) ==> err == nil
+//@   ensures C16.conv.width: err == nil && !typeIs[[]byte](value) ==> len(b) == specP4Bytes(value)
+//@   ensures C16.conv.value: err == nil && specP4Encodable(value) ==> specBE(b) == specP4Val(value)
+//@   ensures C16.conv.fresh: err == nil && !typeIs[[]byte](value) ==> !allocated(b)
+
 func specP4FieldLogged(e int, entry *p4.TableEntry, name string, kind int, val, val2 uint64) bool {
 	return gfield("p4f.entry", e) == uint64(refOf(entry)) && gfieldS("p4f.name", e) == name && gfield("p4f.kind", e) == uint64(kind) &&
 		gfield("p4f.val", e) == val && gfield("p4f.val2", e) == val2
 }
 
-//@ func (t *P4rtTranslator) withExactMatchField(entry *p4.TableEntry, name string, value interface{}) (err error)
+// The four name / ID look-ups in the P4Info served by the switch are the trusted boundary (assumption:
+// the switch serves the shipped P4Info, conf/p4/bin/p4info.txt): they find a table / action exactly
+// when the shipped pipeline declares it, and a match field / parameter under its declared ID.
+//@ func (t *P4rtTranslator) getTableByID(tableID uint32) (r *p4ConfigV1.Table, err error)
 //@   trusted
+//@   pure
+//@   requires t != nil
+//@   ensures C16.assume.table: ((err == nil) <==> oracleP4HasTable(tableID)) && ((err == nil) <==> (r != nil)) && (r != nil ==> gfield("p4i.table", refOf(r)) == uint64(tableID))
+
+//@ func (t *P4rtTranslator) getActionByID(actionID uint32) (r *p4ConfigV1.Action, err error)
+//@   trusted
+//@   pure
+//@   requires t != nil
+//@   ensures C16.assume.action: ((err == nil) <==> oracleP4HasAction(actionID)) && ((err == nil) <==> (r != nil)) && (r != nil ==> gfield("p4i.action", refOf(r)) == uint64(actionID))
+
+//@ func (t *P4rtTranslator) getMatchFieldByName(table *p4ConfigV1.Table, fieldName string) (r *p4ConfigV1.MatchField)
+//@   trusted
+//@   pure
+//@   requires table != nil
+//@   ensures C16.assume.field: ((r != nil) <==> (oracleP4FieldKind(uint32(gfield("p4i.table", refOf(table))), fieldName) != 0)) && (r != nil ==> r.Id == oracleP4FieldID(uint32(gfield("p4i.table", refOf(table))), fieldName))
+
+//@ func (t *P4rtTranslator) getActionParamByName(action *p4ConfigV1.Action, paramName string) (r *p4ConfigV1.Action_Param)
+//@   trusted
+//@   pure
+//@   requires action != nil
+//@   ensures C16.assume.param: ((r != nil) <==> (oracleP4ParamMax(uint32(gfield("p4i.action", refOf(action))), paramName) != 0)) && (r != nil ==> r.Id == oracleP4ParamID(uint32(gfield("p4i.action", refOf(action))), paramName))
+
+// specMatchAdded: entry.Match grew by exactly one element, the earlier ones are untouched, and the
+// new one carries field ID id.
+func specMatchAdded(entry *p4.TableEntry, oldLen int, id uint32) bool {
+	return len(entry.Match) == oldLen+1 && entry.Match[oldLen] != nil && !allocated(entry.Match[oldLen]) && entry.Match[oldLen].FieldId == id
+}
+
+func specIsExact(m *p4.FieldMatch, val uint64, w int) bool {
+	return typeIs[*p4.FieldMatch_Exact_](m.FieldMatchType) && m.FieldMatchType.(*p4.FieldMatch_Exact_).Exact != nil &&
+		len(m.FieldMatchType.(*p4.FieldMatch_Exact_).Exact.Value) == w && specBE(m.FieldMatchType.(*p4.FieldMatch_Exact_).Exact.Value) == val
+}
+
+func specIsLPM(m *p4.FieldMatch, val uint64, prefixLen uint8) bool {
+	return typeIs[*p4.FieldMatch_Lpm](m.FieldMatchType) && m.FieldMatchType.(*p4.FieldMatch_Lpm).Lpm != nil &&
+		len(m.FieldMatchType.(*p4.FieldMatch_Lpm).Lpm.Value) == 4 && specBE(m.FieldMatchType.(*p4.FieldMatch_Lpm).Lpm.Value) == val &&
+		m.FieldMatchType.(*p4.FieldMatch_Lpm).Lpm.PrefixLen == int32(prefixLen)
+}
+
+func specIsRange(m *p4.FieldMatch, low uint64, wl int, high uint64, wh int) bool {
+	return typeIs[*p4.FieldMatch_Range_](m.FieldMatchType) && m.FieldMatchType.(*p4.FieldMatch_Range_).Range != nil &&
+		len(m.FieldMatchType.(*p4.FieldMatch_Range_).Range.Low) == wl && specBE(m.FieldMatchType.(*p4.FieldMatch_Range_).Range.Low) == low &&
+		len(m.FieldMatchType.(*p4.FieldMatch_Range_).Range.High) == wh && specBE(m.FieldMatchType.(*p4.FieldMatch_Range_).Range.High) == high
+}
+
+func specIsTernary(m *p4.FieldMatch, val uint64, mask uint64, w int) bool {
+	return typeIs[*p4.FieldMatch_Ternary_](m.FieldMatchType) && m.FieldMatchType.(*p4.FieldMatch_Ternary_).Ternary != nil &&
+		len(m.FieldMatchType.(*p4.FieldMatch_Ternary_).Ternary.Value) == w && specBE(m.FieldMatchType.(*p4.FieldMatch_Ternary_).Ternary.Value) == val &&
+		len(m.FieldMatchType.(*p4.FieldMatch_Ternary_).Ternary.Mask) == w && specBE(m.FieldMatchType.(*p4.FieldMatch_Ternary_).Ternary.Mask) == mask
+}
+
+// The five helpers that add a match field / an action parameter are verified: under their
+// preconditions (proved at every call site: the name is declared for the table / action with the kind
+// the helper writes, the value fits the declared width) they succeed, append exactly one element
+// that carries the declared ID and the big-endian encoding of the value, and touch nothing else of
+// the entry. The ghost logs "p4f" / "p4p" record the call (ghost definition) for the builders' clauses.
+//@ func (t *P4rtTranslator) withExactMatchField(entry *p4.TableEntry, name string, value interface{}) (err error)
+//@   deadreturns 1, 2, 3, 4
+//@   freshwrites p4.FieldMatch, p4.FieldMatch_Exact, p4.FieldMatch_Exact_, E:uint8
+//@   writesarg entry p4.TableEntry
+//@   requires t != nil
 //@   requires C16.field.entry: entry != nil && oracleP4HasTable(entry.TableId)
 //@   requires C16.field.kind: oracleP4FieldKind(entry.TableId, name) == 1
 //@   requires C16.field.fits: specP4Encodable(value) && specP4Val(value) <= oracleP4FieldMax(entry.TableId, name)
 //@   appends p4f
-//@   ensures specP4FieldLogged(gentry("p4f", glen("p4f")-1), entry, name, 1, specP4Val(value), 0)
+//@   ensures C16.helper.logged: glen("p4f") == old[int](glen("p4f"))+1
+//@   defines specP4FieldLogged(gentry("p4f", glen("p4f")-1), entry, name, 1, specP4Val(value), 0)
+//@   ensures C16.exact.ok@self: err == nil
+//@   ensures C16.exact.added: err == nil ==> specMatchAdded(entry, old[int](len(entry.Match)), oracleP4FieldID(entry.TableId, name)) && specIsExact(entry.Match[len(entry.Match)-1], specP4Val(value), specP4Bytes(value))
+//@   ensures C16.exact.keep: entry.TableId == old[uint32](entry.TableId) && entry.Priority == old[int32](entry.Priority) && entry.Action == old[*p4.TableAction](entry.Action)
 
 //@ func (t *P4rtTranslator) withLPMField(entry *p4.TableEntry, name string, value uint32, prefixLen uint8) (err error)
-//@   trusted
+//@   deadreturns 1, 2, 3, 4
+//@   freshwrites p4.FieldMatch, p4.FieldMatch_LPM, p4.FieldMatch_Lpm, E:uint8
+//@   writesarg entry p4.TableEntry
+//@   requires t != nil
 //@   requires C16.field.entry: entry != nil && oracleP4HasTable(entry.TableId)
 //@   requires C16.field.kind: oracleP4FieldKind(entry.TableId, name) == 2
 //@   requires C16.field.fits: uint64(value) <= oracleP4FieldMax(entry.TableId, name) && 1 <= prefixLen && int(prefixLen) <= oracleP4FieldWidth(entry.TableId, name)
 //@   appends p4f
-//@   ensures specP4FieldLogged(gentry("p4f", glen("p4f")-1), entry, name, 2, uint64(value), uint64(prefixLen))
+//@   ensures C16.helper.logged: glen("p4f") == old[int](glen("p4f"))+1
+//@   defines specP4FieldLogged(gentry("p4f", glen("p4f")-1), entry, name, 2, uint64(value), uint64(prefixLen))
+//@   ensures C16.lpm.ok@self: err == nil
+//@   ensures C16.lpm.added: err == nil ==> specMatchAdded(entry, old[int](len(entry.Match)), oracleP4FieldID(entry.TableId, name)) && specIsLPM(entry.Match[len(entry.Match)-1], uint64(value), prefixLen)
+//@   ensures C16.lpm.keep: entry.TableId == old[uint32](entry.TableId) && entry.Priority == old[int32](entry.Priority) && entry.Action == old[*p4.TableAction](entry.Action)
 
 //@ func (t *P4rtTranslator) withRangeMatchField(entry *p4.TableEntry, name string, low interface{}, high interface{}) (err error)
-//@   trusted
+//@   deadreturns 1, 2, 3, 4, 5
+//@   freshwrites p4.FieldMatch, p4.FieldMatch_Range, p4.FieldMatch_Range_, E:uint8
+//@   writesarg entry p4.TableEntry
+//@   requires t != nil
 //@   requires C16.field.entry: entry != nil && oracleP4HasTable(entry.TableId)
 //@   requires C16.field.kind: oracleP4FieldKind(entry.TableId, name) == 4
 //@   requires C16.field.fits: specP4Encodable(low) && specP4Encodable(high) && specP4Val(low) <= specP4Val(high) && specP4Val(high) <= oracleP4FieldMax(entry.TableId, name)
 //@   appends p4f
-//@   ensures specP4FieldLogged(gentry("p4f", glen("p4f")-1), entry, name, 4, specP4Val(low), specP4Val(high))
+//@   ensures C16.helper.logged: glen("p4f") == old[int](glen("p4f"))+1
+//@   defines specP4FieldLogged(gentry("p4f", glen("p4f")-1), entry, name, 4, specP4Val(low), specP4Val(high))
+//@   ensures C16.range.ok@self: err == nil
+//@   ensures C16.range.added: err == nil ==> specMatchAdded(entry, old[int](len(entry.Match)), oracleP4FieldID(entry.TableId, name)) && specIsRange(entry.Match[len(entry.Match)-1], specP4Val(low), specP4Bytes(low), specP4Val(high), specP4Bytes(high))
+//@   ensures C16.range.keep: entry.TableId == old[uint32](entry.TableId) && entry.Priority == old[int32](entry.Priority) && entry.Action == old[*p4.TableAction](entry.Action)
 
 //@ func (t *P4rtTranslator) withTernaryMatchField(entry *p4.TableEntry, name string, value interface{}, mask interface{}) (err error)
-//@   trusted
+//@   deadreturns 1, 2, 3, 4, 5, 6
+//@   freshwrites p4.FieldMatch, p4.FieldMatch_Ternary, p4.FieldMatch_Ternary_, E:uint8
+//@   writesarg entry p4.TableEntry
+//@   requires t != nil
 //@   requires C16.field.entry: entry != nil && oracleP4HasTable(entry.TableId)
 //@   requires C16.field.kind: oracleP4FieldKind(entry.TableId, name) == 3
 //@   requires C16.field.fits: specP4Encodable(value) && specP4Encodable(mask) && specP4Val(value) <= oracleP4FieldMax(entry.TableId, name) && specP4Val(mask) <= oracleP4FieldMax(entry.TableId, name) && specP4Val(mask) != 0
+//@   requires C16.field.samewidth: specP4Bytes(value) == specP4Bytes(mask)
 //@   appends p4f
-//@   ensures specP4FieldLogged(gentry("p4f", glen("p4f")-1), entry, name, 3, specP4Val(value), specP4Val(mask))
+//@   ensures C16.helper.logged: glen("p4f") == old[int](glen("p4f"))+1
+//@   defines specP4FieldLogged(gentry("p4f", glen("p4f")-1), entry, name, 3, specP4Val(value), specP4Val(mask))
+//@   ensures C16.ternary.ok@self: err == nil
+//@   ensures C16.ternary.added: err == nil ==> specMatchAdded(entry, old[int](len(entry.Match)), oracleP4FieldID(entry.TableId, name)) && specIsTernary(entry.Match[len(entry.Match)-1], specP4Val(value), specP4Val(mask), specP4Bytes(value))
+//@   ensures C16.ternary.keep: entry.TableId == old[uint32](entry.TableId) && entry.Priority == old[int32](entry.Priority) && entry.Action == old[*p4.TableAction](entry.Action)
 
 func specP4ParamLogged(e int, action *p4.Action, name string, val uint64) bool {
 	return gfield("p4p.action", e) == uint64(refOf(action)) && gfieldS("p4p.name", e) == name && gfield("p4p.val", e) == val
 }
 
+func specParamAdded(action *p4.Action, oldLen int, id uint32, val uint64, w int) bool {
+	return len(action.Params) == oldLen+1 && action.Params[oldLen] != nil && !allocated(action.Params[oldLen]) && action.Params[oldLen].ParamId == id &&
+		len(action.Params[oldLen].Value) == w && specBE(action.Params[oldLen].Value) == val
+}
+
 //@ func (t *P4rtTranslator) withActionParam(action *p4.Action, name string, value interface{}) (err error)
-//@   trusted
+//@   deadreturns 1, 2, 3, 4
+//@   freshwrites p4.Action_Param, E:uint8
+//@   writesarg action p4.Action
+//@   requires t != nil
 //@   requires C16.param.action: action != nil && oracleP4HasAction(action.ActionId)
 //@   requires C16.param.fits: specP4Encodable(value) && oracleP4ParamMax(action.ActionId, name) != 0 && specP4Val(value) <= oracleP4ParamMax(action.ActionId, name)
 //@   appends p4p
-//@   ensures specP4ParamLogged(gentry("p4p", glen("p4p")-1), action, name, specP4Val(value))
+//@   ensures C16.helper.logged: glen("p4p") == old[int](glen("p4p"))+1
+//@   defines specP4ParamLogged(gentry("p4p", glen("p4p")-1), action, name, specP4Val(value))
+//@   ensures C16.param.ok@self: err == nil
+//@   ensures C16.param.added: err == nil ==> specParamAdded(action, old[int](len(action.Params)), oracleP4ParamID(action.ActionId, name), specP4Val(value), specP4Bytes(value))
+//@   ensures C16.param.keep: action.ActionId == old[uint32](action.ActionId)
 
 // specEntryAction: the action of a table entry.
 func specEntryAction(e *p4.TableEntry) *p4.Action {
@@ -2664,6 +2837,8 @@ func specPoolArg(ippool *IPPool) bool {
 
 //@ func (p *pdr) parseFTEID(teidIE *ie.IE) (err error)
 //@   requires p != nil && teidIE != nil
+//@   ensures C07.fteid.choose: p.UPAllocateFteid && !old[bool](p.UPAllocateFteid) ==> p.tunnelTEID == old[uint32](p.tunnelTEID) && p.tunnelTEIDMask == old[uint32](p.tunnelTEIDMask)
+//@   ensures C07.fteid.keep: old[bool](p.UPAllocateFteid) ==> p.UPAllocateFteid
 
 //@ func (p *pdr) parsePDI(pdiIEs []*ie.IE, appPFDs map[string]appPFD, ippool *IPPool) (err error)
 //@   requires p != nil && specPoolArg(ippool) && pfdInv(appPFDs)
